@@ -14,7 +14,7 @@ package main
 //   rotate                         force segment rotation
 //   waitsync                       (restart on an existing dir, env VERIF_WAIT_SYNC=1) wait for the startup sync
 // env: VERIF_DATA_DIR=<dir> use this data dir and keep it; VERIF_CRASH_AT / VERIF_CRASH_LOG see c07_crash.go
-//   q <from> <size> <start> <end> <hex SPL>   run a query; prints one JSON line
+//   q <from> <size> <start> <end> <hex text> [sql]   run a query (Splunk QL; with `sql`: the SQL front end); prints one JSON line
 //   qd <from> <size> <start> <end> <hex SPL>  run a query, print nothing
 // stdout: one JSON line per q: {"recs":[{...}], "measure":[...], "groupByCols":[...], "measureFunctions":[...], "total":n, "err":"..."}
 import (
@@ -271,9 +271,13 @@ func e2eWorkerMain() {
 			start, _ := strconv.ParseUint(f[3], 10, 64)
 			end, _ := strconv.ParseUint(f[4], 10, 64)
 			spl, _ := hex.DecodeString(f[5])
+			lang := "Splunk QL"
+			if len(f) > 6 && f[6] == "sql" {
+				lang = "SQL"
+			}
 			body := map[string]interface{}{
 				"searchText": string(spl), "startEpoch": float64(start), "endEpoch": float64(end),
-				"indexName": idx, "queryLanguage": "Splunk QL", "size": float64(size), "from": float64(from),
+				"indexName": idx, "queryLanguage": lang, "size": float64(size), "from": float64(from),
 			}
 			qid++
 			var done chan struct{}
